@@ -56,9 +56,10 @@ def _w(*bytes4):
 
 
 def known_shapes():
-    """name -> (binary file bytes, console input, known-finding kind, what the ISA / hexsim does, what the RTL testbench does)
-    read-overwrites-own-svc: a READ whose result slot mem[sp+1] is the word that holds its own OPR SVC byte
-    first-instruction-svc  : the instruction at byte 0 is OPR SVC (areg = 0 at reset: EXIT)"""
+    """name -> (binary file bytes, console input, kind, what the ISA / hexsim does, what the RTL testbench does / did)
+    read-overwrites-own-svc: a READ whose result slot mem[sp+1] is the word that holds its own OPR SVC byte (known finding)
+    first-instruction-svc  : the instruction at byte 0 is OPR SVC (areg = 0 at reset: EXIT).  Repaired in hextb.cpp (requests
+                             are sampled from the last reset edge); kept as ordinary judged inputs: a difference is a violation"""
     S = {}
     # LDAC 2; BR +6 -> byte 8 | sp = 1 | byte 8: OPR SVC (READ: result slot = word sp+1 = 2 = this word) | LDAC 0; OPR SVC (EXIT); stream word,
     # negative as int = console | 7.   input '!' = 0x21 = STAM 1
@@ -74,6 +75,40 @@ def known_shapes():
     S['first-svc-then-write'] = (_image([_w(0xD3, 0x31, 0xD3, 0x94), 1, _w(0x30, 0xD3, 0, 0), 72, 0]), b'', 'first-instruction-svc',
                                  'exit status 72, no output', 'the first request is never sampled; prints H, then exits 72')
     return S
+
+
+# --------------------------------------------------------------------------- hand-written assembly (through the real hexasm)
+_HDR = 'BR start\nDATA 1 # sp = 1: result slot word 2, value/stream/exit word 3, write stream word 4\nDATA 0\nDATA %d\nDATA 0\nstart\n'
+
+
+def asm_programs():
+    """(name, hexasm source, [console inputs]) -- shapes xcmp never emits:
+    consecutive system calls (OPR SVC in back-to-back cycles, SVC reached by a branch right after an SVC, exit straight after a
+    write) and LDAC/LDBC immediates of more than 20 significant bits (6-8 nibble PFIX/NFIX chains) whose high bits decide
+    a branch or reach the output"""
+    P = []
+    P.append(('svc-write-twice', _HDR % 65 + 'LDAC 1\nOPR SVC\nOPR SVC\nLDAC 0\nOPR SVC\n', [b'']))
+    P.append(('svc-write-thrice-read-twice', _HDR % 66 + 'LDAC 1\nOPR SVC\nOPR SVC\nOPR SVC\nLDAC 2\nOPR SVC\nOPR SVC\nLDAM 2\nSTAM 3\nLDAC 1\nOPR SVC\nLDAC 0\nOPR SVC\n',
+              [b'xy', b'x', b'', b'\xfe\x80z']))
+    P.append(('svc-read-twice', _HDR % 63 + 'LDAC 2\nOPR SVC\nOPR SVC\nLDAM 2\nSTAM 3\nLDAC 1\nOPR SVC\nLDAC 0\nOPR SVC\n', [b'xy', b'q', b'']))
+    P.append(('svc-then-branch-to-svc', _HDR % 67 + 'LDAC 1\nOPR SVC\nBR again\nLDAC 0\nagain\nOPR SVC\nBRZ never\nOPR SVC\nnever\nLDAC 0\nOPR SVC\n', [b'']))
+    P.append(('svc-exit-after-write', _HDR % 68 + 'LDAC 1\nOPR SVC\nLDAC 0\nOPR SVC\n', [b'']))
+    P.append(('svc-read-write-interleaved', _HDR % 69 + 'LDAC 2\nOPR SVC\nLDAC 1\nOPR SVC\nOPR SVC\nLDAC 2\nOPR SVC\nOPR SVC\nLDAC 0\nOPR SVC\n', [b'abc', b'']))
+
+    def wide(tests):
+        """each test: (setup lines leaving a value in areg, 'BRN' or 'BRZ'): prints T when the branch is taken, F otherwise"""
+        src = _HDR % 70
+        for i, (setup, br) in enumerate(tests):
+            src += setup + '%s t%d\nLDAC 70\nBR p%d\nt%d\nLDAC 84\np%d\nSTAM 3\nLDAC 1\nOPR SVC\n' % (br, i, i, i, i)
+        return src + 'LDAC 9\nSTAM 3\nLDAC 0\nOPR SVC\n'
+    P.append(('wide-ldac-sign', wide([('LDAC 1234567\n', 'BRN'), ('LDAC 1048576\n', 'BRN'), ('LDAC 2147483647\n', 'BRN'), ('LDAC -2147483648\n', 'BRZ'),
+                                     ('LDAC -1048577\n', 'BRN'), ('LDAC 2097152\n', 'BRZ'), ('LDAC -2097152\n', 'BRZ'), ('LDAC 305419896\n', 'BRN')]), [b'']))
+    P.append(('wide-ldbc-arith', wide([('LDAC 16\nLDBC 2097155\nOPR SUB\n', 'BRN'), ('LDAC -3000000\nLDBC 1000000\nOPR ADD\n', 'BRN'),
+                                      ('LDAC 0\nLDBC 1048576\nOPR SUB\n', 'BRN'), ('LDAC 5\nLDBC -1048581\nOPR ADD\n', 'BRN'),
+                                      ('LDAC 1000\nLDBC 4293918720\nOPR ADD\n', 'BRN'), ('LDAC 7\nLDBC 268435463\nOPR SUB\n', 'BRZ')]), [b'']))
+    # the wide value itself reaches the output: printed byte = bits 24..31 through repeated doubling is not available; use the exit word
+    P.append(('wide-ldac-exit', _HDR % 71 + 'LDAC 19088743\nLDBC 19088640\nOPR SUB\nSTAM 3\nLDAC 0\nOPR SVC\n', [b'']))
+    return P
 
 
 if __name__ == '__main__':
